@@ -294,6 +294,36 @@ pub fn step(st: &mut St, toks: &[&str]) -> String {
                 None => "panic".into(),
             }
         }
+        // impl-only self-consistency (used where the model cannot execute: huge round counts): refill4 against four
+        // refills from a clone of the same state; `eq` iff the 256 bytes and the two final states agree (theorem
+        // CC.Thm.C14.refill4_eq says they do for every state and every round count)
+        ["guts", "r4eq", slot, dr] => {
+            let Some(dr) = num(dr) else {
+                return "bad-op".into();
+            };
+            let Some(g) = num(slot).and_then(|s| st.guts.get(&s)) else {
+                return "bad-op".into();
+            };
+            let (mut a, mut b) = (g.clone(), g.clone());
+            match guard(move || {
+                let mut wide = [0u8; 256];
+                a.refill4(dr as u32, &mut wide);
+                let mut narrow = [0u8; 256];
+                for k in 0..4 {
+                    let mut blk = [0u8; 64];
+                    b.refill(dr as u32, &mut blk);
+                    narrow[64 * k..64 * k + 64].copy_from_slice(&blk);
+                }
+                wide[..] == narrow[..]
+                    && a.get_stream_param(0) == b.get_stream_param(0)
+                    && a.get_stream_param(1) == b.get_stream_param(1)
+                    && a == b
+            }) {
+                Some(true) => "eq".into(),
+                Some(false) => "ne".into(),
+                None => "panic".into(),
+            }
+        }
         ["guts", "set", slot, param, val] => {
             let (Some(p), Some(v)) = (num(param), num(val)) else {
                 return "bad-op".into();
